@@ -7,7 +7,7 @@ header constant makes that proof fail.  Identifier names do not matter (the func
 what a fragment may be is deliberately narrow:
 
     "lit".as_bytes() | b"lit"           -> str "lit"
-    <param>  |  <param>.as_bytes()       -> the parameter (a byte string of the model)
+    <param> | &<param> | &<param>[..] | <param>.as_bytes() / .as_ref() / .as_slice()   -> the parameter
     <Kind>::HEADER.as_bytes()           -> key_hdr "<Kind>"   (looked up in the regenerated Gen/Headers.v)
 
 anything else stops the translation (the tie no longer checks).  A parameter that is rebound by `let` before the call
@@ -137,7 +137,7 @@ def gen_pae():
                         if a:
                             frags.append('key_hdr "%s"' % a.group(1))
                             continue
-                        a = re.fullmatch(r"&?(\w+)(?:\.as_bytes\(\)|\.as_ref\(\)|\.as_slice\(\))?", fr)
+                        a = re.fullmatch(r"&?\*?(\w+)(?:\[\.\.\])?(?:\.as_bytes\(\)|\.as_ref\(\)|\.as_slice\(\))?", fr)
                         if a and a.group(1) in pnames:
                             if a.group(1) not in used:
                                 used.append(a.group(1))
